@@ -35,7 +35,7 @@ const KEYWORDS: &[&str] = &[
     "Array", "Map", "Some", "None", "Ok", "Err", "Bytes", "Address", "NamedAddress", "Bucket", "Proof", "Blob", "Expression", "Decimal", "PreciseDecimal",
     "NonFungibleLocalId", "NonFungibleGlobalId", "AddressReservation", "NamedIntent", "Intent", "String", "U8", "I128", "Bool", "true", "false", "=>", "<", ">", "(", ")",
     ",", ";", "\"", "#", "-", "1u8", "0i8", "-1i128", "256u8", "340282366920938463463374607431768211456u128", "99999999999999999999999999999999999999999999u64", "01u8", "1u9", "\\",
-    "\"\\u", "\"\\ud800\"", "\"\\udc00\\ud800\"", "\"\\uZZZZ\"", "\"\\x\"", "Enum<AccessRule::AllowAll>()", "Enum<Foo::Bar>()", "Enum<256u16>()",
+    "\"\\u", "\"\\ud800\"", "\"\\udc00\\ud800\"", "\"\\ud800\\u0041\"", "\"\\udbff\\udfff\"", "\"\\uZZZZ\"", "\"\\x\"", "Enum<AccessRule::AllowAll>()", "Enum<Foo::Bar>()", "Enum<256u16>()",
 ];
 
 const NON_ASCII: &[char] = &['é', 'ß', '\u{a0}', '中', '\u{2028}', '\u{feff}', '\u{1f600}', '\u{10ffff}', '\u{301}', '\u{85}'];
@@ -267,6 +267,40 @@ fn mutate(g: &mut Gen, text: &mut String) -> &'static str {
     }
 }
 
+/// Deepest nesting of parentheses outside string literals and comments (scanned the way the
+/// language defines them: `"` .. unescaped `"`, `#` .. end of line).
+fn paren_depth(text: &str) -> usize {
+    let (mut depth, mut max) = (0usize, 0usize);
+    let mut it = text.chars();
+    while let Some(c) = it.next() {
+        match c {
+            '#' => {
+                for d in it.by_ref() {
+                    if d == '\n' {
+                        break;
+                    }
+                }
+            }
+            '"' => {
+                while let Some(d) = it.next() {
+                    if d == '\\' {
+                        it.next();
+                    } else if d == '"' {
+                        break;
+                    }
+                }
+            }
+            '(' => {
+                depth += 1;
+                max = max.max(depth);
+            }
+            ')' => depth = depth.saturating_sub(1),
+            _ => {}
+        }
+    }
+    max
+}
+
 fn span_of(e: &CompileError) -> Span {
     match e {
         CompileError::LexerError(e) => e.span,
@@ -413,6 +447,20 @@ fn case(g: &mut Gen) -> Outcome {
             return Outcome::fail(format!("compile_any_manifest panics at {}", panic_location(&p)), format!("{}\nkind {}\ntext {:?}", p, kind.name(), clip(&text, 4000)));
         }
     };
+    // every parenthesis level is a nested value for the parser, whose documented limit is
+    // PARSER_MAX_DEPTH (the guard against unbounded recursion): deeper texts cannot compile
+    if paren_depth(&text) > radix_transactions::manifest::parser::PARSER_MAX_DEPTH {
+        g.label("nested deeper than PARSER_MAX_DEPTH");
+        ensure!(
+            first.is_err(),
+            "a text nested deeper than PARSER_MAX_DEPTH compiles (parser recursion is unbounded)",
+            "parenthesis depth {} > {}\nkind {}\ntext {:?}",
+            paren_depth(&text),
+            radix_transactions::manifest::parser::PARSER_MAX_DEPTH,
+            kind.name(),
+            clip(&text, 3000)
+        );
+    }
     // same answer every time (and from another thread now and then)
     let second = if g.chance(1, 8) {
         let (t, n, b) = (text.clone(), network.clone(), blobs.clone());
